@@ -32,6 +32,10 @@ def urls_from_text(string):
                 remainder, url = url.split("](", 1)
                 yield remainder.strip()
 
+        # NOTE: a markdown link can have an empty target, e.g. "[url]()"
+        if not url:
+            continue
+
         last_punct = None
 
         stop = len(url) - 1
